@@ -352,10 +352,12 @@ Section C07.
           (frames s3) (rule_root s3) (root s3) (retval s3) (io s3)).
   Proof. exact (return_leaves_loops src funcs fuzzing). Qed.
 
+  (* break / continue / next record their token (ghost event IoSignalAt, Go: e.signalToken)
+     and raise their signal; exit and return raise theirs *)
   Theorem signal_statements : forall n s,
-    (forall t, ES (S n) (SBreak t) s = (Sig SigBreak, s)) /\
-    (forall t, ES (S n) (SContinue t) s = (Sig SigContinue, s)) /\
-    (forall t, ES (S n) (SNext t) s = (Sig SigNext, s)) /\
+    (forall t, ES (S n) (SBreak t) s = (Sig SigBreak, snd (note_signal t s))) /\
+    (forall t, ES (S n) (SContinue t) s = (Sig SigContinue, snd (note_signal t s))) /\
+    (forall t, ES (S n) (SNext t) s = (Sig SigNext, snd (note_signal t s))) /\
     (forall t, ES (S n) (SExit t) s = (Sig SigExit, s)) /\
     ES (S n) (SReturn None) s =
       (Sig SigReturn, mkSt (hp s) (frames s) (rule_root s) (root s) None (io s)).
@@ -455,6 +457,24 @@ Theorem for_forin_disambiguation : forall n p pre p3,
         ttag (pcur p3) = TSemiColon /\ exists c post body, s = SFor pre c post body)).
 Proof. exact for_forin_disambiguation. Qed.
 
+(* for EVERY program text: in the parsed program (rule and function bodies, nested blocks
+   included) no else is attached to an if whose then-branch ends in an if without else *)
+Theorem program_else_binding : forall src prog p',
+  parse_program src = POk prog p' -> program_else_ok prog = true.
+Proof. exact program_else_binding. Qed.
+
+Theorem forin_object_keys_ascending :
+  forall src funcs fuzzing n id ix iter body st local st1 ixlocal st2 ic st3 oid,
+  resolve_var src id id st = (Ok local, st1) ->
+  resolve_index src ix id st1 = (Ok ixlocal, st2) ->
+  eval_expr src funcs fuzzing n iter st2 = (Ok ic, st3) ->
+  load (hp st3) ic = VObj oid ->
+  heap_objs_sorted (hp st3) ->
+  exists keys, keys_ascending keys /\
+    eval_stmt src funcs fuzzing (S n) (SForIn id ix iter body) st =
+    forin_fold (obj_setup local ixlocal oid) (fun k => eval_body src funcs fuzzing k body) n keys st3.
+Proof. exact forin_object_keys_ascending. Qed.
+
 Print Assumptions block_nil.
 Print Assumptions block_seq.
 Print Assumptions block_stops.
@@ -511,6 +531,8 @@ Print Assumptions heap_sorted_steps.
 Print Assumptions else_binds_to_nearest_if.
 Print Assumptions dangling_else.
 Print Assumptions for_forin_disambiguation.
+Print Assumptions program_else_binding.
+Print Assumptions forin_object_keys_ascending.
 
 (* ================================================================== Examples *)
 (* Every hypothesis of the theorems above is satisfiable by a concrete program, and the
@@ -1065,3 +1087,26 @@ Example for_forin_disambiguation_ex :
   | None => False end /\
   parse_result "for (x y) print 1" = inr 7.
 Proof. vm_compute. repeat split; reflexivity. Qed.
+
+Example program_else_binding_ex :
+  (* the checker is not trivially true: this is the shape a wrong resolution would give *)
+  misattached_else (SIf (ELit zero_token) (SIf (ELit zero_token) (SBreak zero_token) None)
+                        (Some (SBreak zero_token))) = true /\
+  match parse_program (bs "function f(a) { while (a) { if (a) if (a) return 1 else return 2 } } BEGIN { if (a) for (k in o) if (b) x = 1 else y = 2 } { if ($.a) if ($.b) print 1 else print 2 }") with
+  | POk prog _ => program_else_ok prog = true /\ length (prules prog) = 2 /\ length (pfuncs prog) = 1
+  | _ => False
+  end.
+Proof. vm_compute. repeat split; reflexivity. Qed.
+
+Example forin_object_keys_ascending_ex :
+  let src := "BEGIN { o = {}; o.b = 1; o.a = 2; for (k in o) print k }" in
+  let hs := head_steps src (stmtN src 3) (st_at src 3) in
+  is_ok (fst (fst hs)) = true /\ is_ok (snd (fst hs)) = true /\ iter_tag (snd hs) = Some TgObj /\
+  heap_objs_sorted (hp (snd (snd hs))) /\
+  prints src ["a"; "b"].
+Proof.
+  cbv zeta.
+  split; [vm_compute; reflexivity|]. split; [vm_compute; reflexivity|].
+  split; [vm_compute; reflexivity|]. split; [|vm_compute; reflexivity].
+  apply heap_objs_sorted_check. vm_compute. reflexivity.
+Qed.
